@@ -10,6 +10,7 @@ import (
 
 	sentinel "github.com/alibaba/sentinel-golang/api"
 	"github.com/alibaba/sentinel-golang/core/base"
+	"github.com/alibaba/sentinel-golang/core/config"
 	"github.com/alibaba/sentinel-golang/core/flow"
 	"github.com/alibaba/sentinel-golang/core/system_metric"
 	"pgregory.net/rapid"
@@ -68,7 +69,8 @@ func loadRule(t *rapid.T, T float64, ivMs, qMs int) {
 
 func TestSequential(t *testing.T) {
 	hx.Check(t, hx.N{Quick: 40000, Thorough: 400000}, func(t *rapid.T, c *hx.Case) {
-		hx.Reset(hx.Epoch + uint64(rapid.IntRange(0, 999).Draw(t, "t0")))
+		cacheTime := rapid.Bool().Draw(t, "useCacheTimeConfigured") // the process-wide "use the cached clock" setting does not coarsen the pacing arithmetic
+		hx.ResetCfg(hx.Epoch+uint64(rapid.IntRange(0, 999).Draw(t, "t0")), hx.DefaultStat, func(e *config.Entity) { e.Sentinel.UseCacheTime = cacheTime })
 		T := rapid.SampledFrom(thresholds).Draw(t, "T")
 		iv := rapid.SampledFrom(intervals).Draw(t, "I")
 		q := rapid.SampledFrom(queues).Draw(t, "Q")
